@@ -90,7 +90,7 @@ Proof.
     { exfalso. rewrite Hp0, E0 in Hbp. subst b. apply (Hno i); [lia|split; assumption]. }
     assert (Hs' : ps (t (lidx L start p)) i = Gen_P4.pvCalcShortHash (hash key)) by (rewrite <- Hbp; exact Es).
     assert (Hk' : pky (t (lidx L start p)) i = key) by (rewrite <- Hbp; exact Hk).
-    pose proof (pfind_loop_hit L t key p i HL Hp ltac:(lia) Hpath Hs' Hk' (S (Z.to_nat (2 ^ L))) 1 ltac:(lia) ltac:(lia)) as X.
+    pose proof (pfind_loop_hit L t key p i HL Hp ltac:(lia) Hpath Hs' Hk' (S (Z.to_nat (2 ^ L - 1))) 1 ltac:(lia) ltac:(lia)) as X.
     change (1 - 1) with 0 in X. fold start in X. rewrite E0 in X. exact X.
   - destruct (Z.eqb_spec r 0); [lia|]. eexists. split; [reflexivity|].
     exists start, (r - 1). split; [reflexivity|]. split; [lia|]. split; assumption.
@@ -172,7 +172,7 @@ Proof.
     { exfalso. rewrite Hp0, E0 in Hbp. subst b. rewrite Hs, Hk, !Z.eqb_refl in E. discriminate. }
     assert (Hs' : ost (t (olidx L start p)) = Gen_One.pvGetHashState (hash key)) by (rewrite <- Hbp; exact Hs).
     assert (Hk' : oky (t (olidx L start p)) = key) by (rewrite <- Hbp; exact Hk).
-    pose proof (ofind_loop_hit L t key p HL Hp Hw Hs' Hk' (S (Z.to_nat (2 ^ L))) 1 ltac:(lia) ltac:(lia)) as X.
+    pose proof (ofind_loop_hit L t key p HL Hp Hw Hs' Hk' (S (Z.to_nat (2 ^ L - 1))) 1 ltac:(lia) ltac:(lia)) as X.
     change (1 - 1) with 0 in X. fold start in X. rewrite E0 in X. exact X.
 Qed.
 
